@@ -298,7 +298,10 @@ func addFieldSelectionsWithCycleDetection(fieldsForName map[string][]fieldAndPar
 	}
 
 	if _, ok := visited[selectionSet]; ok {
-		return newSecondaryError(selectionSet, "cycle detected")
+		// The fields of this selection set have already been added: it is a fragment that is spread
+		// more than once (which is valid), or part of a fragment cycle (which is reported by the
+		// fragment validation rules).
+		return nil
 	}
 	visited[selectionSet] = struct{}{}
 
